@@ -800,6 +800,19 @@ func TestVerif(t *testing.T) {
 			}
 			return nil
 		}
+		var rps map[string]any
+		if r.ReplayInto(&rps) && rps["shipped"] != nil {
+			repo := os.Getenv("VERIF_REPO")
+			if repo == "" {
+				repo = "/repo"
+			}
+			f := fmt.Sprint(rps["shipped"])
+			r.Eval(1)
+			if _, err := loadLiveConfigCandidate(viper.New(), filepath.Join(repo, f)); err != nil {
+				r.Violation("reload/shipped-config-rejected", fmt.Sprintf("the shipped %s is rejected by the file reload path (%v)", f, err), rps)
+			}
+			return
+		}
 		var rp caseID
 		if r.ReplayInto(&rp) {
 			sets := []func(*config.Config){}
@@ -816,6 +829,33 @@ func TestVerif(t *testing.T) {
 			}
 			runCase(r, rp, sets...)
 			return
+		}
+
+		// the shipped example configurations are the documented space's exemplars: the strict
+		// file reload path must accept them
+		if r.Shard == 0 {
+			repo := os.Getenv("VERIF_REPO")
+			if repo == "" {
+				repo = "/repo"
+			}
+			for _, f := range []string{"config.yml", "config-lite.yml", "config-simple.yml", "config-bedrock.yml"} {
+				if _, err := os.Stat(filepath.Join(repo, f)); err != nil {
+					continue
+				}
+				r.Eval(1)
+				if _, err := loadLiveConfigCandidate(viper.New(), filepath.Join(repo, f)); err != nil {
+					detail := ""
+					if b, rerr := os.ReadFile(filepath.Join(repo, f)); rerr == nil {
+						var c config.Config
+						if derr := decodeConfigStrict(b, ".yml", &c); derr != nil {
+							detail = derr.Error()
+						}
+					}
+					r.Violation("reload/shipped-config-rejected", fmt.Sprintf("the shipped %s is rejected by the file reload path (%v): %s", f, err, detail), map[string]string{"shipped": f})
+				} else {
+					r.Class("shipped-config-reloadable")
+				}
+			}
 		}
 
 		item := 0
